@@ -16,6 +16,7 @@ ReadOnly == <<"ro", "gate", "defer", "probe">>
 NoPath  == <<"nopath", "gate", "condexec", "probe">>
 WithPath == <<"gate", "condexec", "probe">>
 WaitFail == <<"defer", "bgfail", "bg", "gate", "wait", "probe">>
+NamedWait == <<"bgnamed", "bg", "bg", "gate", "waitnamed", "probe", "gate", "probe">>
 
 MCBatches == {
   B(<<Sc("p1", Plain), Sc("p2", Probe2)>>, FALSE),
@@ -28,7 +29,9 @@ MCBatches == {
   BR(<<Sc("f1", Fails), Sc("p1", Plain)>>),
   B(<<Sc("p1", Plain), Sc("f1", Fails), Sc("s1", Skips)>>, FALSE),
   B(<<Sc("x1", WaitFail), Sc("d1", Defers)>>, FALSE),
-  B(<<Sc("x1", WaitFail), Sc("x2", WaitFail)>>, FALSE)
+  B(<<Sc("x1", WaitFail), Sc("x2", WaitFail)>>, FALSE),
+  B(<<Sc("y1", NamedWait), Sc("s1", Skips)>>, FALSE),
+  B(<<Sc("y1", NamedWait), Sc("f1", Fails)>>, TRUE)
 }
 
 EmitStep == IF Emit /\ sched' # sched
